@@ -117,9 +117,33 @@ class SpecPlan(Plan):
         return {"suite": "spec_replay", "arg": {"op": op, "a": a, "b": b, "ghost_v": m.get("ghost_v")}}
 
 
+class RtcPlan(Plan):
+    """bounded stand-in only: run-time contracts on the real functions (labelled bounded, never counted as proved)"""
+    level = "exploration"
+    technique = "bounded stand-in: run-time evaluation of the property's contract on the real functions over an enumerated input space"
+    trusted_base = ["the bounded oracle (rtc/) transcribed from the property statement", "packaging (installed release) where it is the reference"]
+
+    def __init__(self, pid, suites):
+        self.pid = pid
+        self.rtc = [(s, None) for s in suites]
+
+    def own_rtc(self, check):
+        return check.startswith(self.pid + ".")
+
+
+RTC_SUITES = {
+    "C02": ["marker_algebra"], "C03": ["marker_vs_packaging"], "C04": ["spec_text"], "C06": ["spec_text"], "C07": ["marker_algebra"],
+    "C08": ["tags_python"], "C09": ["tags_platform"], "C10": ["memo"], "C11": ["bridge"], "C12": ["marker_algebra"], "C13": ["eqhash"],
+    "C14": ["spec_algebra", "marker_algebra"], "C15": ["marker_algebra"], "C16": ["tags_compare"], "C17": ["spec_text"], "C18": ["wheel_names"],
+    "C19": ["generic_spec"],
+}
+
+
 def get_plan(pid):
     if pid in ("C01", "C05"):
         return SpecPlan(pid)
+    if pid in RTC_SUITES:
+        return RtcPlan(pid, RTC_SUITES[pid])
     raise KeyError(pid)
 
 
@@ -159,10 +183,12 @@ def run_property(pid, tier, seed, nproc):
                               "failures": len(fl), "not_evaluated": r.get("not_evaluated", 0), "wall_s": r.get("wall_s")})
         seen = set()
         for f in fl:
-            sig = f["check"]          # one witness per failing check; the count is in the evidence
-            if sig in seen:
+            sig = {"check": f["check"], "input": f.get("input"), "obligation": None}
+            hit = next((e for e in findings if common.finding_matches(e, pid, sig)), None)
+            key = (f["check"], hit["id"] if hit else None)   # one witness per (check, finding class); unmatched ones are never masked
+            if key in seen:
                 continue
-            seen.add(sig)
+            seen.add(key)
             violations.append({"kind": "bounded", "check": f["check"], "concrete": f, "suite": r["suite"],
                                "replay_request": {"suite": r["suite"], "arg": None}})
     # a refuted obligation without a concrete failing input: look for one with the bounded suite's failures
@@ -210,7 +236,11 @@ def run_property(pid, tier, seed, nproc):
     wall = time.time() - t0
     common.write_evidence(pid, tier, seed, plan.level, coverage, common.ENGINE_ASSUMPTIONS + plan.assumptions, wall, len(reported))
 
+    printed = set()
     for h, v in known:
+        if h["id"] in printed:
+            continue
+        printed.add(h["id"])
         print(f"KNOWN-FINDING: property={pid} {h['id']} {h['what']}")
     if crashes:
         for c in crashes:
